@@ -95,12 +95,18 @@ fn short(c: &Cell) -> String {
 
 /// thread classes for the parallel path: 0 = the global pool (4 threads), else a private pool
 const THREAD_CLASSES: [usize; 4] = [0, 1, 2, 3];
+/// thorough tier, deep treatment: additionally a private pool of 7 threads (more threads than
+/// most of the small record counts, so that chunks of one record and idle workers occur)
+const THREAD_CLASSES_DEEP: [usize; 5] = [0, 1, 2, 3, 4];
+const POOL_SIZES: [usize; 4] = [1, 2, 3, 7];
 static POOLS: OnceLock<Vec<rayon::ThreadPool>> = OnceLock::new();
+static POOL_COUNT: std::sync::atomic::AtomicUsize = std::sync::atomic::AtomicUsize::new(3);
 
 fn pools() -> &'static Vec<rayon::ThreadPool> {
     POOLS.get_or_init(|| {
         let _ = rayon::ThreadPoolBuilder::new().num_threads(4).build_global();
-        (1..=3).map(|n| rayon::ThreadPoolBuilder::new().num_threads(n).build().expect("rayon pool")).collect()
+        let k = POOL_COUNT.load(std::sync::atomic::Ordering::Relaxed);
+        POOL_SIZES[..k].iter().map(|&n| rayon::ThreadPoolBuilder::new().num_threads(n).build().expect("rayon pool")).collect()
     })
 }
 
@@ -117,7 +123,7 @@ fn thread_class_name(c: usize) -> String {
     if c == 0 {
         "global pool of 4".into()
     } else {
-        format!("pool of {c}")
+        format!("pool of {}", POOL_SIZES[c - 1])
     }
 }
 
@@ -141,6 +147,9 @@ struct Cx<'a> {
     rot: usize,
     /// put the field type class into path-comparison symptoms
     typed: bool,
+    /// thorough tier, deep treatment of a table: every thread class on every file, access by field
+    /// name, writer fed from every record-set state, second write, schema-less access
+    deep: bool,
 }
 impl Cx<'_> {
     /// at most one violation per symptom class and case
@@ -292,10 +301,40 @@ fn lib_get<'a>(rs: &'a RecordSet) -> impl Fn(u32) -> Result<String, String> + 'a
     move |o| rs.get_string(StringRef::new(o)).map(|s| s.to_string()).map_err(|e| e.to_string())
 }
 
+/// The record sets the library built from one file.
+struct Sets {
+    eager: RecordSet,
+    mmap: Option<RecordSet>,
+    par: Option<RecordSet>,
+}
+
+/// deep treatment: `Record::get_value_by_name` must return what `get_value(index)` returns
+fn check_by_name(cx: &mut Cx, tag: &str, path: &str, recs: &[Record], sch: &Sch, ctx: &str) {
+    let names: Vec<String> = (0..sch.fields.len()).map(|i| format!("f{i}")).collect();
+    for (ri, rec) in recs.iter().enumerate() {
+        for (fi, name) in names.iter().enumerate() {
+            cx.r.count("by_name_accesses", 1);
+            let a = rec.get_value_by_name(name).map(raw);
+            let b = rec.get_value(fi).map(raw);
+            if a != b || a.is_none() {
+                cx.viol(
+                    format!("{tag}: {path} record access by field name differs from access by index"),
+                    format!("{ctx}: record {ri} field {fi}: by name {:?}, by index {:?}", a.as_ref().map(short), b.as_ref().map(short)),
+                );
+                return;
+            }
+        }
+        if rec.get_value_by_name("no such field").is_some() || rec.len() != sch.fields.len() || rec.schema().is_none() {
+            cx.viol(format!("{tag}: {path} record metadata (len / schema / unknown field name) is inconsistent"), format!("{ctx}: record {ri}"));
+            return;
+        }
+    }
+}
+
 /// All four access paths (+ cached strings, + key lookups) on one file.  The eager result is
 /// judged against `want` (independent content of the file); every other path is judged against
-/// the eager result on the same file.  Returns the eager set.
-fn check_file(cx: &mut Cx, tag: &str, bytes: &[u8], sch: &Sch, want: &Table, want_name: &str, ctx: &str, classes: &[usize]) -> Option<RecordSet> {
+/// the eager result on the same file.  Returns the record sets (eager, mmap, last parallel).
+fn check_file(cx: &mut Cx, tag: &str, bytes: &[u8], sch: &Sch, want: &Table, want_name: &str, ctx: &str, classes: &[usize]) -> Option<Sets> {
     // ---- eager
     let mut tm = std::time::Instant::now();
     let parser = match DbcParser::parse_bytes(bytes) {
@@ -353,6 +392,12 @@ fn check_file(cx: &mut Cx, tag: &str, bytes: &[u8], sch: &Sch, want: &Table, wan
     if by_index != eager {
         cx.viol(format!("{tag}: RecordSet::get_record(i) differs from records()[i]"), ctx.to_string());
     }
+    if cx.deep {
+        check_by_name(cx, tag, "eager", rs.records(), sch, ctx);
+        if rs.is_empty() != (n == 0) || rs.get_record(n).is_some() || rs.schema().is_none() {
+            cx.viol(format!("{tag}: RecordSet metadata (is_empty / get_record past the end / schema) is inconsistent"), ctx.to_string());
+        }
+    }
     // ---- cached string block
     {
         let mut c = rs.clone();
@@ -381,10 +426,16 @@ fn check_file(cx: &mut Cx, tag: &str, bytes: &[u8], sch: &Sch, want: &Table, wan
             compare_path(cx, tag, "lazy iterator", &it, &lget, sch, Want::Eager(&eager, eager_res.as_ref()), ctx);
         }
         let mut gr = vec![];
+        let mut gr_recs = vec![];
         ok = true;
         for i in 0..n {
             match lazy.get_record(i as u32) {
-                Ok(rec) => gr.push(raw_rec(&rec)),
+                Ok(rec) => {
+                    gr.push(raw_rec(&rec));
+                    if cx.deep {
+                        gr_recs.push(rec);
+                    }
+                }
                 Err(e) => {
                     cx.viol(format!("{tag}: lazy get_record returns Err for an existing index"), format!("{ctx}: record {i}: {e}"));
                     ok = false;
@@ -394,6 +445,13 @@ fn check_file(cx: &mut Cx, tag: &str, bytes: &[u8], sch: &Sch, want: &Table, wan
         }
         if ok {
             compare_path(cx, tag, "lazy get_record", &gr, &lget, sch, Want::Eager(&eager, eager_res.as_ref()), ctx);
+        }
+        if cx.deep {
+            check_by_name(cx, tag, "lazy get_record", &gr_recs, sch, ctx);
+            // an index past the end must not produce a record
+            if lazy.get_record(n as u32).is_ok() {
+                cx.viol(format!("{tag}: lazy get_record returns a record for an index past the end"), ctx.to_string());
+            }
         }
     }
     // ---- memory-mapped (file on disk in the scratch dir)
@@ -453,6 +511,9 @@ fn check_file(cx: &mut Cx, tag: &str, bytes: &[u8], sch: &Sch, want: &Table, wan
                 let got: Vec<Vec<Cell>> = prs.records().iter().map(raw_rec).collect();
                 let c2 = format!("{ctx} threads={}", thread_class_name(tc));
                 compare_path(cx, tag, "parallel", &got, &lib_get(&prs), sch, Want::Eager(&eager, eager_res.as_ref()), &c2);
+                if cx.deep && par_rs.is_none() {
+                    check_by_name(cx, tag, "parallel", prs.records(), sch, &c2);
+                }
                 par_rs = Some(prs);
             }
         }
@@ -469,15 +530,32 @@ fn check_file(cx: &mut Cx, tag: &str, bytes: &[u8], sch: &Sch, want: &Table, wan
         }
     }
     lap(&mut tm, 4);
-    Some(rs)
+    Some(Sets { eager: rs, mmap: mm_rs, par: par_rs })
 }
 
 const TAG_REF: &str = "reference-emitted table";
 const TAG_LIB: &str = "library-written table";
 const SYM_F1: &str = "write→parse: with_schema refuses the library's own output for a schema with array fields (header field_count counts fields, validation counts array elements)";
 
+/// Output of one accepted write and the record sets of its parse-back.
+struct Written {
+    bytes: Vec<u8>,
+    sets: Option<Sets>,
+}
+
+/// `DbcWriter::write_records` alone (explicit or record-set schema)
+fn just_write(rs: &RecordSet, sch: &Sch, explicit: bool) -> Result<Vec<u8>, String> {
+    let mut cur = Cursor::new(Vec::new());
+    let mut w = DbcWriter::new(&mut cur);
+    if explicit {
+        w = w.with_schema(lib_schema(sch));
+    }
+    w.write_records(rs).map_err(|e| e.to_string())?;
+    Ok(cur.into_inner())
+}
+
 /// DbcWriter on a parsed set; independent judgement of the bytes; parse back on all paths.
-fn write_and_check(cx: &mut Cx, rs0: &RecordSet, sch: &Sch, truth: &Table, explicit: bool, ctx: &str, classes: &[usize]) -> Option<Vec<u8>> {
+fn write_and_check(cx: &mut Cx, rs0: &RecordSet, sch: &Sch, truth: &Table, explicit: bool, ctx: &str, classes: &[usize]) -> Option<Written> {
     let mut cur = Cursor::new(Vec::new());
     {
         let mut w = DbcWriter::new(&mut cur);
@@ -576,22 +654,30 @@ fn write_and_check(cx: &mut Cx, rs0: &RecordSet, sch: &Sch, truth: &Table, expli
             cx.r.count("reparse_with_patched_field_count", 1);
         } else {
             cx.viol("write→parse: library refuses to parse its own output".into(), format!("{ctx}: {e}"));
-            return Some(out);
+            return Some(Written { bytes: out, sets: None });
         }
     }
     // the library's readers are judged against what the file really contains (independent
     // reader); whether that equals the source was judged above
-    match &decoded {
+    let sets = match &decoded {
         Ok(t) => check_file(cx, TAG_LIB, &back, sch, t, "content of the file (independent reader)", ctx, classes),
         Err(_) => check_file(cx, TAG_LIB, &back, sch, truth, "ground truth", ctx, classes),
     };
-    Some(out)
+    Some(Written { bytes: out, sets })
 }
 
 /// One table: emit -> parse (all paths) -> write (explicit and inherited schema) -> parse (all paths).
 fn run_table(cx: &mut Cx, sch: &Sch, n: usize, kc: KeyClass, layout: Layout) {
-    let truth = gen_table(sch, n, kc, n);
-    let ctx = format!("schema {} n={} keys={} layout={}", sch.render(), n, kc.name(), layout.name());
+    run_table_sp(cx, sch, n, kc, layout, StrPool::Base)
+}
+
+fn run_table_sp(cx: &mut Cx, sch: &Sch, n: usize, kc: KeyClass, layout: Layout, sp: StrPool) {
+    let truth = gen_table_with(sch, n, kc, n, sp);
+    let ctx = if sp == StrPool::Base {
+        format!("schema {} n={} keys={} layout={}", sch.render(), n, kc.name(), layout.name())
+    } else {
+        format!("schema {} n={} keys={} layout={} strings={}", sch.render(), n, kc.name(), layout.name(), sp.name())
+    };
     let em = dbcref::emit(&sch.fields, &truth, layout, HeaderKind::Wdbc);
     cx.r.count("tables_emitted", 1);
     cx.r.count("records_emitted", n as u64);
@@ -601,7 +687,9 @@ fn run_table(cx: &mut Cx, sch: &Sch, n: usize, kc: KeyClass, layout: Layout) {
     cx.rot += 1;
     let rot = [THREAD_CLASSES[cx.rot % 4]];
     let full = kc == KeyClass::Unsorted;
-    let (ce, cw): (&[usize], &[usize]) = if cx.all_classes {
+    let (ce, cw): (&[usize], &[usize]) = if cx.deep {
+        (&THREAD_CLASSES_DEEP, &THREAD_CLASSES_DEEP)
+    } else if cx.all_classes {
         (&THREAD_CLASSES, &THREAD_CLASSES)
     } else if n <= 1 || !full {
         (&rot, if n >= 7 { &rot } else { &[] })
@@ -610,19 +698,204 @@ fn run_table(cx: &mut Cx, sch: &Sch, n: usize, kc: KeyClass, layout: Layout) {
     } else {
         (&THREAD_CLASSES, &rot)
     };
-    let Some(rs0) = check_file(cx, TAG_REF, &em.bytes, sch, &truth, "ground truth", &ctx, ce) else { return };
-    let a = write_and_check(cx, &rs0, sch, &truth, true, &format!("{ctx} writer=explicit-schema"), cw);
+    let Some(sets0) = check_file(cx, TAG_REF, &em.bytes, sch, &truth, "ground truth", &ctx, ce) else { return };
+    let rs0 = &sets0.eager;
+    let a = write_and_check(cx, rs0, sch, &truth, true, &format!("{ctx} writer=explicit-schema"), cw);
     // writer without its own schema takes the record set's
     let mut cur = Cursor::new(Vec::new());
-    let inherited = DbcWriter::new(&mut cur).write_records(&rs0).is_ok();
+    let inherited = DbcWriter::new(&mut cur).write_records(rs0).is_ok();
     let b = cur.into_inner();
-    if inherited && a.as_deref() == Some(&b[..]) {
+    if inherited && a.as_ref().map(|w| &w.bytes[..]) == Some(&b[..]) {
         cx.r.count("inherited_schema_output_identical", 1);
     } else {
-        write_and_check(cx, &rs0, sch, &truth, false, &format!("{ctx} writer=record-set-schema"), cw);
+        write_and_check(cx, rs0, sch, &truth, false, &format!("{ctx} writer=record-set-schema"), cw);
     }
     if n > 0 && a.is_some() {
         cx.r.nontrivial = true;
+    }
+    if cx.deep {
+        deep_extras(cx, sch, &truth, &em.bytes, &sets0, a.as_ref(), &ctx);
+    }
+}
+
+/// Deep treatment of one table (thorough tier only).
+/// (i) the writer is fed from every record-set state the library can build from the reference file
+/// (cached strings, sorted key map, mmap, parallel) with explicit and record-set schema: an output
+/// identical to the already judged output of the eager set needs no second judgement, any other
+/// output is judged in full; (ii) second write: the record sets parsed back from the first output
+/// are written again (write→parse→write→parse) and judged the same way; (iii) schema-less access on
+/// the reference file and on the first output.
+fn deep_extras(cx: &mut Cx, sch: &Sch, truth: &Table, ref_bytes: &[u8], s0: &Sets, a: Option<&Written>, ctx: &str) {
+    cx.rot += 1;
+    let rot = [THREAD_CLASSES_DEEP[cx.rot % THREAD_CLASSES_DEEP.len()]];
+    if let Some(a) = a {
+        let feed = |cx: &mut Cx, what: &str, rs: &RecordSet, both: bool| {
+            for explicit in if both { &[true, false][..] } else { &[true][..] } {
+                cx.r.count("writer_feeds", 1);
+                match just_write(rs, sch, *explicit) {
+                    Err(_) => {
+                        cx.r.err_return = true;
+                        cx.flags.insert("writer-refused");
+                        cx.r.count("writer_refusals", 1);
+                    }
+                    Ok(b) if b == a.bytes => cx.r.count("writer_feed_output_identical_to_judged_output", 1),
+                    Ok(_) => {
+                        cx.r.count("writer_feed_output_differs(judged in full)", 1);
+                        let c2 = format!("{ctx} writer fed from {what} ({})", if *explicit { "explicit schema" } else { "record-set schema" });
+                        write_and_check(cx, rs, sch, truth, *explicit, &c2, &rot);
+                    }
+                }
+            }
+        };
+        {
+            let mut c = s0.eager.clone();
+            c.enable_string_caching();
+            feed(cx, "the eager record set with cached string block", &c, true);
+        }
+        if sch.key.is_some() {
+            let mut k = s0.eager.clone();
+            if k.create_sorted_key_map().is_ok() {
+                feed(cx, "the eager record set after create_sorted_key_map", &k, true);
+            }
+        }
+        if let Some(m) = &s0.mmap {
+            feed(cx, "the mmap record set", m, true);
+        }
+        if let Some(p) = &s0.par {
+            feed(cx, "the parallel record set", p, true);
+        }
+        // second write
+        if let Some(sa) = &a.sets {
+            feed(cx, "the eager parse of the first output (second write)", &sa.eager, true);
+            if let Some(m) = &sa.mmap {
+                feed(cx, "the mmap parse of the first output (second write)", m, false);
+            }
+            if let Some(p) = &sa.par {
+                feed(cx, "the parallel parse of the first output (second write)", p, false);
+            }
+        }
+    }
+    check_raw(cx, TAG_REF, ref_bytes, sch, ctx);
+    if let Some(a) = a {
+        if a.sets.is_some() {
+            check_raw(cx, TAG_LIB, &a.bytes, sch, &format!("{ctx} writer=explicit-schema"));
+        }
+    }
+}
+
+/// Schema-less access (every field a 32-bit word) on a table whose cells are all 32 bits wide:
+/// eager, lazy, mmap and parallel must return the words of the records; the record set can be
+/// written with a flat UInt32 schema and must survive that.
+fn check_raw(cx: &mut Cx, tag: &str, bytes: &[u8], sch: &Sch, ctx: &str) {
+    if sch.elements() == 0 || sch.fields.iter().any(|k| k.ty.size() != 4) {
+        // a table with packed 8/16-bit cells has no schema-less reading; nothing is demanded
+        cx.r.count("schemaless_not_applicable(packed or empty records)", 1);
+        return;
+    }
+    let Ok(p) = dbcref::read(bytes) else { return };
+    let el = sch.elements();
+    let words: Vec<Vec<Cell>> = (0..p.record_count as usize)
+        .map(|r| (0..el).map(|e| Cell::U32(u32::from_le_bytes(p.records[(r * el + e) * 4..(r * el + e) * 4 + 4].try_into().unwrap()))).collect())
+        .collect();
+    cx.r.count("schemaless_tables", 1);
+    let cmp = |cx: &mut Cx, path: &str, got: &[Vec<Cell>], extra: &str| {
+        cx.r.count("path_comparisons", 1);
+        if got != &words[..] {
+            let at = got.iter().zip(words.iter()).position(|(a, b)| a != b);
+            cx.viol(
+                format!("{tag}: schema-less {path} differs from the 32-bit words of the records"),
+                format!("{ctx}{extra}: {} records vs {}; first differing record {:?}", got.len(), words.len(), at),
+            );
+        }
+    };
+    let parser = match DbcParser::parse_bytes(bytes) {
+        Ok(p) => p,
+        Err(e) => {
+            cx.viol(format!("{tag}: schema-less eager parse fails on a well-formed table"), format!("{ctx}: {e}"));
+            return;
+        }
+    };
+    let rs = match parser.parse_records() {
+        Ok(r) => r,
+        Err(e) => {
+            cx.viol(format!("{tag}: schema-less eager parse fails on a well-formed table"), format!("{ctx}: {e}"));
+            return;
+        }
+    };
+    let eager: Vec<Vec<Cell>> = rs.records().iter().map(raw_rec).collect();
+    cmp(cx, "eager parse", &eager, "");
+    let sb = Arc::new(rs.string_block().clone());
+    {
+        let lazy = LazyDbcParser::new(parser.data(), parser.header(), None, Arc::clone(&sb));
+        let it: Result<Vec<Vec<Cell>>, String> = lazy.record_iterator().map(|x| x.map(|r| raw_rec(&r)).map_err(|e| e.to_string())).collect();
+        match it {
+            Ok(v) => cmp(cx, "lazy iterator", &v, ""),
+            Err(e) => cx.viol(format!("{tag}: schema-less lazy iterator fails on a well-formed table"), format!("{ctx}: {e}")),
+        }
+        let gr: Result<Vec<Vec<Cell>>, String> = (0..words.len()).map(|i| lazy.get_record(i as u32).map(|r| raw_rec(&r)).map_err(|e| e.to_string())).collect();
+        match gr {
+            Ok(v) => cmp(cx, "lazy get_record", &v, ""),
+            Err(e) => cx.viol(format!("{tag}: schema-less lazy get_record fails on a well-formed table"), format!("{ctx}: {e}")),
+        }
+    }
+    {
+        let path = cx.sc.path("r.dbc");
+        std::fs::write(&path, bytes).expect("scratch write");
+        match MmapDbcFile::open(&path) {
+            Err(e) => cx.viol(format!("{tag}: MmapDbcFile::open fails on a well-formed table"), format!("{ctx}: {e}")),
+            Ok(mm) => match mm.parser().parse_records() {
+                Ok(m) => cmp(cx, "mmap parser", &m.records().iter().map(raw_rec).collect::<Vec<_>>(), ""),
+                Err(e) => cx.viol(format!("{tag}: schema-less mmap parser fails on a well-formed table"), format!("{ctx}: {e}")),
+            },
+        }
+        let _ = std::fs::remove_file(&path);
+    }
+    cx.rot += 1;
+    for tc in [THREAD_CLASSES_DEEP[cx.rot % 5], THREAD_CLASSES_DEEP[(cx.rot + 2) % 5]] {
+        let res = guarded(|| in_pool(tc, || wow_cdbc::parse_records_parallel(bytes, parser.header(), None, Arc::clone(&sb))));
+        cx.r.count("parallel_runs", 1);
+        match res {
+            Err((file, line, msg)) => cx.viol(format!("{tag}: schema-less parse_records_parallel panics"), format!("{ctx}: threads={}: {file}:{line}: {msg}", thread_class_name(tc))),
+            Ok(Err(e)) => cx.viol(format!("{tag}: schema-less parse_records_parallel fails on a well-formed table"), format!("{ctx}: threads={}: {e}", thread_class_name(tc))),
+            Ok(Ok(prs)) => cmp(cx, "parallel parse", &prs.records().iter().map(raw_rec).collect::<Vec<_>>(), &format!(" threads={}", thread_class_name(tc))),
+        }
+    }
+    // ---- writer: without any schema it has to refuse; with a flat UInt32 schema the words survive
+    {
+        let mut cur = Cursor::new(Vec::new());
+        match DbcWriter::new(&mut cur).write_records(&rs) {
+            Err(_) => cx.r.count("schemaless_write_refused(no schema)", 1),
+            Ok(()) => cx.r.count("schemaless_write_accepted(not judged)", 1),
+        }
+    }
+    let mut flat = Schema::new("R");
+    for i in 0..el {
+        flat.add_field(SchemaField::new(format!("c{i}"), FieldType::UInt32));
+    }
+    let mut cur = Cursor::new(Vec::new());
+    if DbcWriter::new(&mut cur).with_schema(flat.clone()).write_records(&rs).is_err() {
+        cx.r.err_return = true;
+        cx.r.count("writer_refusals", 1);
+        return;
+    }
+    let out = cur.into_inner();
+    cx.r.count("tables_written", 1);
+    match dbcref::read(&out) {
+        Err(_) => cx.viol("schema-less write: file size differs from header + records * record size + string block (or no WDBC header)".into(), format!("{ctx}: {} bytes", out.len())),
+        Ok(q) => {
+            if q.record_count as usize != words.len() || q.record_size as usize != 4 * el {
+                cx.viol("schema-less write: header record_count / record_size differ from the record set".into(), format!("{ctx}: {} x {}", q.record_count, q.record_size));
+            } else if q.records != p.records {
+                cx.viol("schema-less write: record bytes differ from the source records".into(), ctx.to_string());
+            }
+            if dbcref::block_entries(q.strings).is_err() {
+                cx.viol("schema-less write: string block is malformed".into(), ctx.to_string());
+            }
+            match DbcParser::parse_bytes(&out).and_then(|x| x.with_schema(flat)).and_then(|x| x.parse_records()) {
+                Err(e) => cx.viol("schema-less write→parse: library refuses to parse its own output".into(), format!("{ctx}: {e}")),
+                Ok(back) => cmp(cx, "write→parse with a flat UInt32 schema", &back.records().iter().map(raw_rec).collect::<Vec<_>>(), ""),
+            }
+        }
     }
 }
 
@@ -657,6 +930,91 @@ fn sets_for(has_key: bool) -> Vec<(usize, KeyClass)> {
 
 struct Main {
     maxlen: u32,
+    /// thorough tier, space "deep": the deep treatment of every table and the larger record-set family
+    deep: bool,
+}
+
+/// record counts of the deep treatment: with pools of 1, 2, 3, 4 and 7 threads the chunk size
+/// max(1, n / threads) and the remainder n % chunk take every combination that occurs below 18
+const N_DEEP: [usize; 14] = [0, 1, 2, 3, 4, 5, 6, 7, 8, 9, 12, 13, 16, 17];
+/// record counts of the field-count ladder
+const N_LADDER: [usize; 7] = [0, 1, 2, 5, 9, 17, 40];
+
+/// record sets of the deep treatment for one (schema, key option)
+fn sets_deep(has_key: bool, ns: &[usize]) -> Vec<(usize, KeyClass)> {
+    let mut v = vec![];
+    for &n in ns {
+        if has_key && n >= 2 {
+            for kc in [KeyClass::Sorted, KeyClass::Unsorted, KeyClass::Dup] {
+                v.push((n, kc));
+            }
+        } else {
+            v.push((n, KeyClass::Unsorted));
+        }
+    }
+    v
+}
+
+const LAYOUTS_ALL: [Layout; 4] = [Layout::Pooled, Layout::PerCell, Layout::SuffixShared, Layout::Scattered];
+
+/// the reference layouts that produce different files for this schema
+fn layouts_for(fields: &[Kind]) -> &'static [Layout] {
+    if fields.iter().any(|k| k.ty == Ty::Str && k.elements() > 0) {
+        &LAYOUTS_ALL
+    } else {
+        // no string cells: a one-byte block (Pooled) or no block at all (PerCell)
+        &LAYOUTS_ALL[..2]
+    }
+}
+
+/// One schema: all its key options and record sets (the case of spaces main / deep / five / ladder).
+/// `deep_ns`: None = the record sets and rotating selections of the quick tier; Some(ns) = full
+/// product of ns x key order x every distinguishable reference layout with the deep treatment.
+fn run_schema(fields: Vec<Kind>, deep_ns: Option<&[usize]>) -> CaseResult {
+    let mut r = CaseResult::new();
+    r.key = format!("{:?}", fields.iter().map(|k| k.label()).collect::<Vec<_>>());
+    let sc = Scratch::new("c17");
+    let out;
+    {
+        let mut cx = Cx { r: &mut r, seen: HashSet::new(), flags: BTreeSet::new(), sc: &sc, all_classes: false, rot: 0, typed: true, deep: deep_ns.is_some() };
+        let mut keys: Vec<Option<usize>> = vec![None];
+        keys.extend((0..fields.len()).filter(|&p| fields[p].keyable()).map(Some));
+        let mut t = 0usize;
+        for key in keys {
+            let sch = Sch { fields: fields.clone(), key };
+            cx.r.count("schema_key_combinations", 1);
+            match deep_ns {
+                None => {
+                    for (n, kc) in sets_for(key.is_some()) {
+                        let layout = if t % 2 == 0 { Layout::Pooled } else { Layout::PerCell };
+                        t += 1;
+                        run_table(&mut cx, &sch, n, kc, layout);
+                    }
+                }
+                Some(ns) => {
+                    for (n, kc) in sets_deep(key.is_some(), ns) {
+                        for &layout in layouts_for(&fields) {
+                            run_table(&mut cx, &sch, n, kc, layout);
+                        }
+                    }
+                }
+            }
+        }
+        // key on a field that cannot be a key: the library may refuse the schema; not judged
+        for p in 0..fields.len() {
+            if !fields[p].keyable() {
+                let sch = Sch { fields: fields.clone(), key: Some(p) };
+                let em = dbcref::emit(&sch.fields, &vec![], Layout::Pooled, HeaderKind::Wdbc);
+                match DbcParser::parse_bytes(&em.bytes).and_then(|x| x.with_schema(lib_schema(&sch))) {
+                    Ok(_) => cx.r.count("non_keyable_key_accepted", 1),
+                    Err(_) => cx.r.count("non_keyable_key_refused", 1),
+                }
+            }
+        }
+        out = outcome(&cx);
+    }
+    r.outcome = out;
+    r
 }
 impl Main {
     /// 36 kinds up to three fields; four-field schemas use 27 kinds (no one-element arrays)
@@ -697,39 +1055,216 @@ impl Space for Main {
         let f = self.schema(i);
         let s = Sch { fields: f, key: None };
         let keyable: Vec<usize> = (0..s.fields.len()).filter(|&p| s.fields[p].keyable()).collect();
+        if self.deep {
+            return json!({"fields": s.labels(), "record_size": s.record_size(), "key_options": {"none": true, "positions": keyable}, "treatment": "deep",
+               "record_sets": format!("n in {:?} x key order {{sorted,unsorted,duplicate}} x every distinguishable string layout", N_DEEP)});
+        }
         json!({"fields": s.labels(), "record_size": s.record_size(), "key_options": {"none": true, "positions": keyable},
                "record_sets": "n in {0,1,2,7} x key order {sorted,unsorted,duplicate} x string layout"})
     }
     fn run(&self, i: u64) -> CaseResult {
-        let fields = self.schema(i);
+        run_schema(self.schema(i), if self.deep { Some(&N_DEEP) } else { None })
+    }
+    fn case_timeout(&self) -> u64 {
+        if self.deep {
+            120
+        } else {
+            60
+        }
+    }
+}
+
+// ------------------------------------------------------------------ space "five" (thorough)
+
+/// five-field schemas over the nine scalar types and one two-element array per cell width
+struct Five;
+const FIVE_KINDS: u64 = 12;
+impl Five {
+    fn kind(k: u64) -> Kind {
+        match k {
+            0..=8 => Kind::from_index(k),
+            9 => Kind { ty: Ty::U8, arr: Some(2) },
+            10 => Kind { ty: Ty::U16, arr: Some(2) },
+            _ => Kind { ty: Ty::Str, arr: Some(2) },
+        }
+    }
+    fn schema(mut i: u64) -> Vec<Kind> {
+        let mut f = vec![Kind::from_index(0); 5];
+        for p in (0..5).rev() {
+            f[p] = Self::kind(i % FIVE_KINDS);
+            i /= FIVE_KINDS;
+        }
+        f
+    }
+}
+impl Space for Five {
+    fn len(&self) -> u64 {
+        FIVE_KINDS.pow(5)
+    }
+    fn describe(&self, i: u64) -> J {
+        let s = Sch { fields: Self::schema(i), key: None };
+        let keyable: Vec<usize> = (0..s.fields.len()).filter(|&p| s.fields[p].keyable()).collect();
+        json!({"fields": s.labels(), "record_size": s.record_size(), "key_options": {"none": true, "positions": keyable},
+               "record_sets": "n in {0,1,2,7} x key order {sorted,unsorted,duplicate} x string layout"})
+    }
+    fn run(&self, i: u64) -> CaseResult {
+        run_schema(Self::schema(i), None)
+    }
+}
+
+// ------------------------------------------------------------------ space "ladder" (thorough)
+
+/// every field count 1..=24: type cycle started at each of the 9 types x 4 array patterns;
+/// key at every keyable position; deep treatment
+struct Ladder;
+impl Ladder {
+    fn schema(i: u64) -> Vec<Kind> {
+        let d = gen::mixed_radix(i, &[24, 9, 4]);
+        let (len, rot, pat) = (d[0] as usize + 1, d[1] as usize, d[2] as usize);
+        (0..len)
+            .map(|p| {
+                let ty = match pat {
+                    3 => TYS[(9 + rot - p % 9) % 9],
+                    2 => TYS[(p * 2 + rot) % 9],
+                    _ => TYS[(p + rot) % 9],
+                };
+                let arr = match pat {
+                    0 => None,
+                    1 => (p % 3 == 2).then_some(2),
+                    2 => (p % 2 == 1).then_some(if p % 4 == 1 { 1 } else { 3 }),
+                    _ => (p % 5 == 2).then_some(4),
+                };
+                Kind { ty, arr }
+            })
+            .collect()
+    }
+}
+impl Space for Ladder {
+    fn len(&self) -> u64 {
+        24 * 9 * 4
+    }
+    fn describe(&self, i: u64) -> J {
+        let s = Sch { fields: Self::schema(i), key: None };
+        let keyable: Vec<usize> = (0..s.fields.len()).filter(|&p| s.fields[p].keyable()).collect();
+        json!({"field_count": s.fields.len(), "fields": s.labels(), "record_size": s.record_size(), "key_options": {"none": true, "positions": keyable}, "treatment": "deep",
+               "record_sets": format!("n in {:?} x key order {{sorted,unsorted,duplicate}} x every distinguishable string layout", N_LADDER)})
+    }
+    fn run(&self, i: u64) -> CaseResult {
+        run_schema(Self::schema(i), Some(&N_LADDER))
+    }
+    fn case_timeout(&self) -> u64 {
+        240
+    }
+}
+
+// ------------------------------------------------------------------ space "tables" (thorough)
+
+/// One schema with an explicit list of tables, deep treatment: array lengths, string pools, record counts.
+struct TCase {
+    group: &'static str,
+    sch: Sch,
+    sets: Vec<(usize, KeyClass, Layout, StrPool)>,
+}
+
+struct Tables {
+    cases: Vec<TCase>,
+}
+
+const ARRAY_LENS: [usize; 12] = [0, 1, 2, 3, 4, 5, 8, 16, 64, 255, 256, 1000];
+const COUNT_LADDER: [usize; 28] = [3, 4, 5, 6, 8, 9, 15, 16, 17, 31, 32, 33, 63, 64, 65, 100, 255, 256, 257, 1000, 1023, 1024, 1025, 4095, 4096, 4097, 9999, 10_000];
+const STRING_COUNTS: [usize; 6] = [1, 2, 7, 13, 100, 1000];
+
+fn string_schemas() -> Vec<Sch> {
+    let k = |ty, arr| Kind { ty, arr };
+    vec![
+        Sch { fields: vec![k(Ty::Str, None)], key: None },
+        Sch { fields: vec![k(Ty::Str, Some(3))], key: None },
+        Sch { fields: vec![k(Ty::U8, None), k(Ty::Str, None), k(Ty::U16, None), k(Ty::Str, Some(2))], key: None },
+        Sch { fields: vec![k(Ty::U32, None), k(Ty::Str, None), k(Ty::Str, None)], key: Some(0) },
+    ]
+}
+
+impl Tables {
+    fn new() -> Tables {
+        let k = |ty, arr| Kind { ty, arr };
+        let mut cases = vec![];
+        // ---- array lengths: element type x length x shape
+        for &ty in TYS.iter() {
+            for &len in ARRAY_LENS.iter() {
+                for shape in 0..4 {
+                    let sch = match shape {
+                        0 => Sch { fields: vec![k(ty, Some(len))], key: None },
+                        1 => Sch { fields: vec![k(Ty::U8, None), k(ty, Some(len)), k(Ty::U16, None)], key: None },
+                        2 => Sch { fields: vec![k(Ty::U32, None), k(ty, Some(len)), k(Ty::Str, None)], key: Some(0) },
+                        _ => Sch { fields: vec![k(ty, Some(len)), k(ty, Some(len / 2 + 1)), k(Ty::I32, None)], key: Some(2) },
+                    };
+                    let mut sets = vec![];
+                    for n in [0usize, 1, 2, 7] {
+                        // records of zero bytes are not a table the format can hold
+                        if n > 0 && sch.record_size() == 0 {
+                            continue;
+                        }
+                        let kcs: &[KeyClass] = if sch.key.is_some() && n == 7 { &[KeyClass::Unsorted, KeyClass::Dup] } else { &[KeyClass::Unsorted] };
+                        for &kc in kcs {
+                            for &layout in layouts_for(&sch.fields) {
+                                sets.push((n, kc, layout, StrPool::Base));
+                            }
+                        }
+                    }
+                    cases.push(TCase { group: "array lengths", sch, sets });
+                }
+            }
+        }
+        // ---- string pools: schema x pool x record count, every layout
+        for sch in string_schemas() {
+            for sp in STR_POOLS_THOROUGH {
+                for n in STRING_COUNTS {
+                    if sp == StrPool::Long && n > 13 {
+                        continue;
+                    }
+                    let sets = LAYOUTS_ALL.iter().map(|&l| (n, KeyClass::Unsorted, l, sp)).collect();
+                    cases.push(TCase { group: "string pools", sch: sch.clone(), sets });
+                }
+            }
+        }
+        // ---- record counts: the three 24-field schemas x key x count ladder x key order x every layout
+        for w in 0..3 {
+            for key in [false, true] {
+                for n in COUNT_LADDER {
+                    let kcs: &[KeyClass] = if key { &[KeyClass::Sorted, KeyClass::Unsorted, KeyClass::Dup] } else { &[KeyClass::Unsorted] };
+                    for &kc in kcs {
+                        for layout in LAYOUTS_ALL {
+                            cases.push(TCase { group: "record counts", sch: wide_schema(w, key), sets: vec![(n, kc, layout, StrPool::Base)] });
+                        }
+                    }
+                }
+            }
+        }
+        Tables { cases }
+    }
+}
+impl Space for Tables {
+    fn len(&self) -> u64 {
+        self.cases.len() as u64
+    }
+    fn describe(&self, i: u64) -> J {
+        let c = &self.cases[i as usize];
+        let sets: Vec<J> = c.sets.iter().map(|(n, kc, l, sp)| json!({"records": n, "keys": kc.name(), "layout": l.name(), "strings": sp.name()})).collect();
+        json!({"group": c.group, "fields": c.sch.labels(), "record_size": c.sch.record_size(), "key": c.sch.key, "treatment": "deep", "tables": sets})
+    }
+    fn case_timeout(&self) -> u64 {
+        300
+    }
+    fn run(&self, i: u64) -> CaseResult {
+        let c = &self.cases[i as usize];
         let mut r = CaseResult::new();
-        r.key = format!("{:?}", fields.iter().map(|k| k.label()).collect::<Vec<_>>());
+        r.key = format!("t{i}");
         let sc = Scratch::new("c17");
         let out;
         {
-            let mut cx = Cx { r: &mut r, seen: HashSet::new(), flags: BTreeSet::new(), sc: &sc, all_classes: false, rot: 0, typed: true };
-            let mut keys: Vec<Option<usize>> = vec![None];
-            keys.extend((0..fields.len()).filter(|&p| fields[p].keyable()).map(Some));
-            let mut t = 0usize;
-            for key in keys {
-                let sch = Sch { fields: fields.clone(), key };
-                cx.r.count("schema_key_combinations", 1);
-                for (n, kc) in sets_for(key.is_some()) {
-                    let layout = if t % 2 == 0 { Layout::Pooled } else { Layout::PerCell };
-                    t += 1;
-                    run_table(&mut cx, &sch, n, kc, layout);
-                }
-            }
-            // key on a field that cannot be a key: the library may refuse the schema; not judged
-            for p in 0..fields.len() {
-                if !fields[p].keyable() {
-                    let sch = Sch { fields: fields.clone(), key: Some(p) };
-                    let em = dbcref::emit(&sch.fields, &vec![], Layout::Pooled, HeaderKind::Wdbc);
-                    match DbcParser::parse_bytes(&em.bytes).and_then(|x| x.with_schema(lib_schema(&sch))) {
-                        Ok(_) => cx.r.count("non_keyable_key_accepted", 1),
-                        Err(_) => cx.r.count("non_keyable_key_refused", 1),
-                    }
-                }
+            let mut cx = Cx { r: &mut r, seen: HashSet::new(), flags: BTreeSet::new(), sc: &sc, all_classes: true, rot: i as usize, typed: true, deep: true };
+            for &(n, kc, layout, sp) in &c.sets {
+                run_table_sp(&mut cx, &c.sch, n, kc, layout, sp);
             }
             out = outcome(&cx);
         }
@@ -810,7 +1345,7 @@ impl Space for ExtraSpace {
         let sc = Scratch::new("c17");
         let out;
         {
-            let mut cx = Cx { r: &mut r, seen: HashSet::new(), flags: BTreeSet::new(), sc: &sc, all_classes: true, rot: 0, typed: true };
+            let mut cx = Cx { r: &mut r, seen: HashSet::new(), flags: BTreeSet::new(), sc: &sc, all_classes: true, rot: 0, typed: true, deep: false };
             match self.cases[i as usize] {
                 Extra::Wide { w, key, n, kc, layout } => {
                     let sch = wide_schema(w, key);
@@ -860,9 +1395,37 @@ fn version_schemas() -> Vec<Sch> {
     ]
 }
 
-struct Versions;
+/// thorough tier: the build threshold from both sides, index arrays of 1 and 256 entries, WDB5
+const VERSION_KINDS_THOROUGH: [HeaderKind; 8] = [
+    HeaderKind::Wdb2Basic,
+    HeaderKind::Wdb2Ext,
+    HeaderKind::Wdb2ExtIndex,
+    HeaderKind::Wdb2BasicAtThreshold,
+    HeaderKind::Wdb2ExtAboveThreshold,
+    HeaderKind::Wdb2ExtIndexOne,
+    HeaderKind::Wdb2ExtIndexMany,
+    HeaderKind::Wdb5,
+];
+const VERSION_COUNTS_THOROUGH: [usize; 7] = [0, 1, 2, 7, 8, 33, 1000];
+
+fn version_schemas_thorough() -> Vec<Sch> {
+    let k = |ty, arr| Kind { ty, arr };
+    let mut v = version_schemas();
+    v.push(Sch { fields: vec![k(Ty::Str, None)], key: None });
+    v.push(Sch { fields: vec![k(Ty::I32, None), k(Ty::Str, Some(3)), k(Ty::I8, None), k(Ty::F32, None), k(Ty::Str, None)], key: Some(0) });
+    v.push(wide_schema(1, true));
+    v
+}
+
+struct Versions {
+    thorough: bool,
+}
 impl Versions {
     fn case(&self, i: u64) -> (HeaderKind, Sch, usize) {
+        if self.thorough {
+            let d = gen::mixed_radix(i, &[7, 6, 8]);
+            return (VERSION_KINDS_THOROUGH[d[2] as usize], version_schemas_thorough()[d[1] as usize].clone(), VERSION_COUNTS_THOROUGH[d[0] as usize]);
+        }
         let d = gen::mixed_radix(i, &[4, 3, 3]);
         let n = [0usize, 1, 2, 7][d[0] as usize];
         (VERSION_KINDS[d[2] as usize], version_schemas()[d[1] as usize].clone(), n)
@@ -870,7 +1433,11 @@ impl Versions {
 }
 impl Space for Versions {
     fn len(&self) -> u64 {
-        36
+        if self.thorough {
+            7 * 6 * 8
+        } else {
+            36
+        }
     }
     fn describe(&self, i: u64) -> J {
         let (hk, s, n) = self.case(i);
@@ -884,20 +1451,27 @@ impl Space for Versions {
         let sc = Scratch::new("c17");
         let out;
         {
-            let mut cx = Cx { r: &mut r, seen: HashSet::new(), flags: BTreeSet::new(), sc: &sc, all_classes: true, rot: 0, typed: false };
+            let mut cx = Cx { r: &mut r, seen: HashSet::new(), flags: BTreeSet::new(), sc: &sc, all_classes: true, rot: 0, typed: false, deep: false };
             let truth = gen_table(&sch, n, KeyClass::Unsorted, n);
             let em = dbcref::emit(&sch.fields, &truth, Layout::Pooled, hk);
             let ctx = format!("{} (emitted header length {}) schema {} n={}", hk.name(), em.header_len, sch.render(), n);
             let tag = match hk {
-                HeaderKind::Wdb2Basic => "WDB2 table (basic header)",
-                HeaderKind::Wdb2Ext => "WDB2 table (extended header)",
+                HeaderKind::Wdb2Basic | HeaderKind::Wdb2BasicAtThreshold => "WDB2 table (basic header)",
+                HeaderKind::Wdb2Ext | HeaderKind::Wdb2ExtAboveThreshold => "WDB2 table (extended header)",
+                HeaderKind::Wdb5 => "WDB5 table",
                 _ => "WDB2 table (extended header + index arrays)",
             };
             // judged: agreement of lazy / mmap / parallel / cached strings with the library's own eager
             // parse of the same file; NOT judged: the eager parse against the emitter's table
-            check_file(&mut cx, tag, &em.bytes, &sch, &truth, "", &ctx, &THREAD_CLASSES);
+            check_file(&mut cx, tag, &em.bytes, &sch, &truth, "", &ctx, if self.thorough { &THREAD_CLASSES_DEEP } else { &THREAD_CLASSES });
             cx.r.count("tables_emitted", 1);
-            out = if cx.r.viols.is_empty() { "wdb2-all-paths-agree".to_string() } else { "wdb2-paths-disagree".to_string() };
+            out = if hk == HeaderKind::Wdb5 {
+                if cx.r.viols.is_empty() { "wdb5-all-paths-agree".to_string() } else { "wdb5-paths-disagree".to_string() }
+            } else if cx.r.viols.is_empty() {
+                "wdb2-all-paths-agree".to_string()
+            } else {
+                "wdb2-paths-disagree".to_string()
+            };
         }
         r.outcome = out;
         r
@@ -987,11 +1561,18 @@ fn repro() {
 // ------------------------------------------------------------------ driver
 
 fn build(name: &str, _arg: &str, tier: Tier) -> Box<dyn Space> {
+    // the pool of 7 threads exists in the thorough tier only
+    POOL_COUNT.store(tier.pick(3, 4), std::sync::atomic::Ordering::Relaxed);
     pools();
     match name {
-        "main" => Box::new(Main { maxlen: tier.pick(3, 4) }),
+        "main" => Box::new(Main { maxlen: tier.pick(3, 4), deep: false }),
         "extra" => Box::new(ExtraSpace::new(tier)),
-        "versions" => Box::new(Versions),
+        "versions" => Box::new(Versions { thorough: tier == Tier::Thorough }),
+        // thorough tier only
+        "deep" => Box::new(Main { maxlen: 3, deep: true }),
+        "five" => Box::new(Five),
+        "ladder" => Box::new(Ladder),
+        "tables" => Box::new(Tables::new()),
         _ => panic!("space {name}"),
     }
 }
@@ -1046,10 +1627,48 @@ fn main() {
     c.assume("a key on a non-32-bit or array field may be refused by with_schema (counted, not judged); out-of-range indices are not probed");
     c.assume("the parallel path runs on the real rayon (no schedule exploration; the loom stand-in of DESIGN.md is out of scope of this binary)");
     c.assume("after the known refusal of array schemas the written header's field_count is patched to the element count so that the remaining content of the written file is still judged");
-    for s in ["main", "extra", "versions"] {
+    let thorough = c.tier == Tier::Thorough;
+    if thorough {
+        c.rule.push_str(&format!(
+            " THOROUGH TIER ADDITIONS. The versions space becomes 8 containers (WDB2 basic/extended/index arrays of 3, build threshold 12880 and 12881, index arrays of 1 and of 256 entries, WDB5) x 6 schemas x n in {:?} with pools of 4(global),1,2,3,7 threads. Deep treatment of a table (spaces deep, ladder, tables) = the steps above with parse_records_parallel under all five pools on both files, plus: Record::get_value_by_name against get_value on the eager, lazy and parallel records; lazy get_record past the end; the writer fed with explicit and record-set schema from every record-set state (cached string block, after create_sorted_key_map, mmap set, parallel set) and, as second write, from the eager / mmap / parallel parse of its own first output (write->parse->write->parse): an output byte-identical to the judged first output is accepted, any other output is judged in full like the first; schema-less access (tables whose cells are all 32 bits wide): eager, lazy iterator, lazy get_record, mmap parser and parallel parse without schema must return the 32-bit words of the records (independent reader) on the reference file and on the first output, DbcWriter with a flat UInt32 schema must reproduce the record bytes, size identity and parse back to the same words. Four reference string layouts: pooled-sorted, copy-per-cell, suffix-shared (a string that is a byte suffix of another is referenced inside it; \"\" is referenced at the last terminator), scattered (reverse order with unreferenced filler strings). space deep: EVERY schema of 1..=3 fields over the 36 kinds x every key option x n in {:?} x key order (keyed, n>=2: sorted, unsorted, duplicate) x every layout that yields a different file (4 with a String cell, else 2). space five: EVERY five-field schema over 12 kinds (9 scalar types, UInt8[2], UInt16[2], String[2]) with the record sets of space main. space ladder: field counts 1..=24 x type cycle started at each of the 9 types x 4 array patterns (none; [2] on every third field; [1]/[3] on odd fields with type stride 2; reverse cycle with [4] on every fifth field), key at none and every keyable position, n in {:?}. space tables (one schema, listed tables): array lengths {:?} x 9 element types x 4 shapes (alone; between UInt8 and UInt16; after a UInt32 key and before a String; two arrays before an Int32 key) x n in {{0,1,2,7}}; string pools (1-4 byte UTF-8 / DEL / space / 255 and 256 byte strings; strings of 65535, 65536, 70000 bytes and 65534 bytes + a two-byte sequence; all cells equal; all cells distinct) x 4 string schemas x n in {:?} (64KiB pool: n<=13) x 4 layouts; record counts {:?} x three 24-field schemas x (no key | key x sorted, unsorted, duplicate with keys straddling the sign bit and guaranteed duplicates) x 4 layouts.",
+            VERSION_COUNTS_THOROUGH, N_DEEP, N_LADDER, ARRAY_LENS, STRING_COUNTS, COUNT_LADDER
+        ));
+        c.assume("schema-less access is judged only on tables whose cells are all 32 bits wide (record_size = 4 x header field_count); for packed 8/16-bit tables the schema-less paths are not exercised. A schema-less record set written without any schema is expected to be refused (counted, not judged)");
+        c.assume("writer outputs from different record-set states of the same table need not be byte-identical: a differing output is judged in full against the ground truth instead");
+        c.assume("array fields of length 0 are legal schema fields (zero elements, zero bytes); tables whose records would be zero bytes long are only built with zero records");
+        c.assume("a string reference may point at any byte of the string block and denotes the bytes up to the next terminator (suffix-shared reference layout)");
+    }
+    let spaces: &[&str] = if thorough { &["main", "extra", "versions", "deep", "five", "ladder", "tables"] } else { &["main", "extra", "versions"] };
+    // development aid (timing of single spaces); such a run is marked in the evidence
+    let only = std::env::var("C17_ONLY_SPACES").ok();
+    if let Some(o) = &only {
+        c.assume(format!("DEVELOPMENT RUN restricted to the spaces {o}: NOT a complete run of the tier"));
+    }
+    for s in spaces {
+        if only.as_ref().is_some_and(|o| !o.split(',').any(|x| x == *s)) {
+            continue;
+        }
         c.run_space(s, "");
     }
     sweep_stale_scratch();
+    if thorough {
+        let t = Tables::new();
+        let grp = |g: &str| t.cases.iter().filter(|c| c.group == g).count();
+        c.extra_cov.insert(
+            "axes_thorough".into(),
+            json!({
+                "deep": {"schemas": Main { maxlen: 3, deep: true }.len(), "record_counts": N_DEEP, "key_order_classes": 3, "string_layouts": ["pooled-sorted", "copy-per-cell", "suffix-shared", "scattered-with-filler"],
+                         "rayon_thread_classes": [4, 1, 2, 3, 7], "writer_feed_states": ["eager", "eager+cached strings", "eager+sorted key map", "mmap", "parallel", "second write from eager", "second write from mmap", "second write from parallel"],
+                         "writer_schema_sources": 2, "schemaless_paths": ["eager", "lazy iterator", "lazy get_record", "mmap parser", "parallel", "write with flat UInt32 schema -> parse"]},
+                "five": {"schemas": Five.len(), "field_kinds": FIVE_KINDS, "fields": 5},
+                "ladder": {"cases": Ladder.len(), "field_counts": 24, "type_rotations": 9, "array_patterns": 4, "record_counts": N_LADDER},
+                "tables": {"array_length_cases": grp("array lengths"), "array_lengths": ARRAY_LENS, "array_element_types": 9, "array_shapes": 4,
+                           "string_pool_cases": grp("string pools"), "string_pools": STR_POOLS_THOROUGH.iter().map(|p| p.name()).collect::<Vec<_>>(), "string_schemas": 4, "string_record_counts": STRING_COUNTS,
+                           "record_count_cases": grp("record counts"), "record_count_ladder": COUNT_LADDER, "wide_schemas": 3, "key_options": 4},
+                "versions": {"containers": VERSION_KINDS_THOROUGH.iter().map(|k| k.name()).collect::<Vec<_>>(), "schemas": 6, "record_counts": VERSION_COUNTS_THOROUGH},
+            }),
+        );
+    }
     c.extra_cov.insert(
         "axes".into(),
         json!({
